@@ -5,7 +5,7 @@ from . import racelike, flow, common, c01, c02, c03, prims, joinlike
 
 PROPERTY = "C08"
 LEVEL = "other"
-CONFIGS_QUICK = ["std"]
+CONFIGS_QUICK = ["std", "alloc"]
 CONFIGS_THOROUGH = ["std", "alloc", "core"]
 EXPLANATION = (
     "Path and data-flow rules on the MIR of every merge poll_next body (tuple arities 1-12, array, Vec): (ITEM) on every input's "
